@@ -8,7 +8,8 @@ Line-protocol handler for property C11.
 * `A` ARGV[1..n] (ARGV[0] is implicit, ARGC = n+1), `S` the records of stdin, `F` the files, `V` the program's global scalar names
 * ops: `e <tag>` | `n` | `nf` | `x <n>` | `x -` | `g` | `gv <v>` | `gf <file>` | `gvf <v> <file>` | `c <ops> ;` | `l <n> <ops> ;` |
   `i <cond> <ops> ;` | `sa <i> <hex>` | `sc <n>`
-* pat: `a` | `p <cond>` | `r <cond> <cond>`;  body: `0` (no action) | `1 <ops> ;`
+* pat: `a` | `p <pcond>` | `r <pcond> <pcond>`;  body: `0` (no action) | `1 <ops> ;`
+* pcond: `<cond>` | `q n <when> <cond>` | `q nf <when> <cond>` (a function that executes next / nextfile when `when` holds, else returns `cond`)
 * cond: `t` | `f` | `h <byte>` | `nr <n>` | `fnr <n>` | `nrge <n>` | `not <cond>` | `veq <v> <hex>` | `and <cond> <cond>`
 
 answer: `ok|err <status> <event>*` with events `E:tag:nr:fnr:filename:line:nf:v0,v1,v2`, `G:form:ret`, `P:line`, `X:kind[:value]`
@@ -126,17 +127,30 @@ def pOps : Nat → Toks → Option (List Op × Toks)
       one (.setArgc n) r
     | _ => none
 
+/-- a pattern expression: a plain condition, or `q n|nf <when> <cond>` = a call of
+`function f() { if (when) next|nextfile; return cond }` -/
+def pPatCond (fuel : Nat) (t : Toks) : Option ((View → PRes) × Toks) :=
+  match t with
+  | "q" :: kind :: r => do
+    let (w, r) ← pCond fuel r
+    let (c, r) ← pCond fuel r
+    let sg : PRes := if kind = "nf" then .nextfile else .next
+    pure (fun v => if w v then sg else .val (c v), r)
+  | _ => do
+    let (c, r) ← pCond fuel t
+    pure (fun v => .val (c v), r)
+
 def pRules (fuel : Nat) : Nat → Toks → Option (List Rule × Toks)
   | 0, t => some ([], t)
   | k + 1, t => do
     let (pat, t) ← (match t with
       | "a" :: r => some (Pat.always, r)
       | "p" :: r => do
-        let (c, r) ← pCond fuel r
+        let (c, r) ← pPatCond fuel r
         pure (Pat.pred c, r)
       | "r" :: r => do
-        let (b, r) ← pCond fuel r
-        let (e, r) ← pCond fuel r
+        let (b, r) ← pPatCond fuel r
+        let (e, r) ← pPatCond fuel r
         pure (Pat.range b e, r)
       | _ => none)
     let (body, t) ← (match t with
